@@ -33,10 +33,12 @@ from ...ast.fpyast import (
     Assign,
     Expr,
     ForStmt,
+    IfStmt,
     ListComp,
     ListRef,
     NamedId,
     Stmt,
+    StmtBlock,
     Var,
 )
 from ...utils import Unionfind
@@ -180,6 +182,18 @@ def _is_external(members: list[Definition]) -> bool:
     return False
 
 
+def _contains(root: Stmt, target: object) -> bool:
+    """Is *target* a statement at or beneath *root*?"""
+    if root is target:
+        return True
+    for attr in ('body', 'ift', 'iff'):
+        block = getattr(root, attr, None)
+        if isinstance(block, StmtBlock):
+            if any(_contains(s, target) for s in block.stmts):
+                return True
+    return False
+
+
 class StorageInfer:
     """
     Storage-type inference for the cpp emitter.
@@ -297,6 +311,17 @@ class StorageInfer:
                 f'(members={members})'
             )
             first_assign = min(assigns, key=lambda d: def_use.def_to_idx[d])
+            # Both arms of an `if` reassigning a variable bound before it
+            # merge into a class of their own -- the earlier def is a separate
+            # class -- so its first writer sits in one arm and dominates
+            # neither the other arm nor the code after the statement.
+            if_phis = [d for d in members
+                       if isinstance(d, PhiDef) and isinstance(d.site, IfStmt)
+                       and _contains(d.site, first_assign.site)]
+            if if_phis:
+                anchor_phi = max(if_phis, key=lambda d: def_use.def_to_idx[d])
+                hoists_before[anchor_phi.site].append(c)
+                continue
             declare_at_assign.add(first_assign)
         # Stable order per anchor for deterministic output.
         for cs in hoists_before.values():
